@@ -637,7 +637,9 @@ rtcMultiAssignVars(RetContext context, FoamBox tempLocals, Foam lhs)
 
 	for (i=0; i<foamArgc(lhs); i++) {
 		Foam loc = lhs->foamValues.argv[i];
-		if (!rtcHasNewDecl(context, loc)) 
+		/* Only locals and parameters are retyped. */
+		if ((foamTag(loc) != FOAM_Loc && foamTag(loc) != FOAM_Par)
+		    || !rtcHasNewDecl(context, loc)) 
 			extraVars = listCons(Foam)(NULL, extraVars);
 		else {
 			int id = fboxAdd(tempLocals, foamCopy(rtcOriginalDecl(context, loc)));
